@@ -464,6 +464,55 @@ def stack_depth_case(ctx, r):
             return
 
 
+def threads_over_one_document(ctx, r):
+    """Several threads evaluate queries that compare deeply nested containers (40..90 levels, equal down to the bottom or
+    differing only there) over ONE shared document object and one shared context object, through one environment, with
+    yields injected inside the comparison code: every evaluation must give what it gives alone."""
+    import jsonpath
+    from rt import threads
+
+    def nest(leaf, depth, shape):
+        v = leaf
+        for i in range(depth):
+            v = [v, i] if shape == "arrays" or (shape == "mixed" and i % 2) else {"k": v, "n": i}
+        return v
+    depth = r.choice([40, 60, 90])
+    shape = r.choice(["arrays", "objects", "mixed"])
+    doc = {"want": nest(1, depth, shape), "items": [nest(2, depth, shape), nest(1, depth, shape), nest(True, depth, shape), nest(1.0, depth, shape), nest([1], depth, shape), nest(1, depth, shape)]}
+    ex = {"want": nest(2, depth, shape)}
+    texts = ["$.items[?@ == $.want]", "$.items[?@ != $.want]", "$.items[?@ == _.want]", "$.items[?@ <= $.want]", "$.items[?$.want == @ || _.want == @]", "$.items[?@ == $.items[1]]"]
+    qs = [(t, jsonpath.compile(t)) for t in texts]
+    refs = {t: [m.path for m in q.finditer(doc, filter_context=ex)] for t, q in qs}
+    errors = []
+
+    def worker(wid, rr):
+        try:
+            for _ in range(10):
+                t, q = rr.choice(qs)
+                route = rr.choice(["compiled", "fresh compile", "module"])
+                if route == "compiled":
+                    got = [m.path for m in q.finditer(doc, filter_context=ex)]
+                elif route == "fresh compile":
+                    got = [m.path for m in jsonpath.compile(t).finditer(doc, filter_context=ex)]
+                else:
+                    got = [m.path for m in jsonpath.finditer(t, doc, filter_context=ex)]
+                if got != refs[t]:
+                    errors.append({"text": t, "route": route, "nesting": depth, "shape": shape, "alone": refs[t], "among_other_threads": got})
+                    return
+        except RecursionError:
+            return
+        except Exception as e:  # noqa: BLE001
+            errors.append({"thread": wid, "raised": "%s: %s" % (type(e).__name__, e)})
+    st = threads.stress(worker, nthreads=6, files=("env.py", "filter.py"), seed=r.random(), prob=0.03)
+    ctx.evaluation(60)
+    ctx.count("deep_comparisons_over_one_shared_document_from_threads", 60)
+    ctx.count("yields_injected", st["yields"])
+    if errors:
+        ctx.violation("result-depends-on-what-other-threads-are-evaluating", {"kind": "stack-depth"}, errors[0])
+        return False
+    return True
+
+
 def solo(text, doc, ex):
     """Reference: fresh environment with caching off, freshly compiled, fresh deep copy."""
     import jsonpath
@@ -863,6 +912,9 @@ def run(spec, ctx):
         # (without the H4 hook: its shadow re-evaluation would itself run out of stack and turn every deep case into a refusal)
         for _ in range(spec["n"]):
             stack_depth_case(ctx, ctx.rng)
+        for _ in range(3):
+            if not threads_over_one_document(ctx, ctx.rng):
+                break
         return
     install()
     r = ctx.rng
@@ -928,6 +980,9 @@ def replay(case, ctx):
     if case.get("kind") == "stack-depth":
         for _ in range(40):
             stack_depth_case(ctx, ctx.rng)
+        for _ in range(6):
+            if not threads_over_one_document(ctx, ctx.rng):
+                break
         return
     install()
     kind = case.get("kind", "history")
